@@ -259,7 +259,7 @@ MOS = [
 ]
 
 FK = [("hnsw_backend.rs", "normalize_in_place_if_needed"), ("hnsw_index.rs", "validate_vector"), ("hnsw_backend.rs", "recover_with_hnsw_params_and_mode")]
-ROWS = [("overflow_cosine_d2", "quick"), ("unchecked_cosine_d1", "quick"), ("checked_cosine_d1", "thorough"), ("checked_inner_product_d1", "thorough"), ("checked_euclidean_d2", "thorough"),
+ROWS = [("overflow_cosine_d2", "quick"), ("unchecked_cosine_d1", "quick"), ("checked_cosine_d1", "quick"), ("checked_inner_product_d1", "thorough"), ("checked_euclidean_d2", "thorough"),
         ("overflow_inner_product_d2", "thorough")]
 HARNESSES = [
     KH("O2.5/" + r, "c02_o5_replay_normalize_" + r, "a vector accepted by the pre-log validation of insert is accepted again and left bit-identical by the replay-time normalisation (%s)" % r,
